@@ -314,7 +314,7 @@ pub fn parse_tls_extension_ec_point_formats_content(i: &[u8]) -> IResult<&[u8], 
 }
 
 pub fn parse_tls_extension_ec_point_formats(i: &[u8]) -> IResult<&[u8], TlsExtension> {
-    let (i, _) = tag([0x00, 0x0a])(i)?;
+    let (i, _) = tag([0x00, 0x0b])(i)?;
     map_parser(
         length_data(be_u16),
         parse_tls_extension_ec_point_formats_content,
